@@ -27,15 +27,15 @@ ASSUMPTIONS = [
     'on more bytes than the order (p256_m62/m64), Curve25519 scalars longer than 32 bytes, the return value of '
     'Curve25519 mul() on low-order / twist points, lenient DER forms of valid signatures, out-of-range private '
     'keys given to the signers',
-    'muladd() with a zero multiplier: both the documented answer (error) and the mathematically correct point '
-    'with success are accepted; success with a different point is a violation',
+    'muladd() with a zero multiplier must return 0 (bearssl_ec.h: "If either integer is zero, then an error is reported")',
 ]
 EVAL = ['cmp_const', 'cmp_mul', 'cmp_mulgen', 'cmp_muladd', 'cmp_invalid_point', 'cmp_kat', 'cmp_sign',
         'cmp_vrfy_accept', 'cmp_vrfy_reject', 'cmp_vrfy_must_reject', 'cmp_unsupported_curve',
         'cmp_conv_r2a', 'cmp_conv_a2r', 'cmp_conv_roundtrip', 'cmp_conv_must_fail',
         'cmp_keygen_range', 'cmp_pubkey']
 DISTINCT = ['arith_cfg', 'ecdsa_cfg', 'conv_cfg', 'keygen_cfg', 'vrfy_hashlen']
-REQUIRED = ['cmp_const', 'cmp_mul', 'cmp_mulgen', 'cmp_muladd', 'cmp_muladd_must_fail', 'cmp_invalid_point',
+REQUIRED = ['cmp_const', 'cmp_mul', 'cmp_mulgen', 'cmp_muladd', 'cmp_muladd_must_fail', 'cmp_muladd_zero_multiplier',
+            'vrfy_cases_with_e_zero', 'cmp_invalid_point',
             'cmp_kat', 'cmp_sign', 'cmp_vrfy_accept', 'cmp_vrfy_reject', 'cmp_vrfy_must_reject',
             'cmp_conv_r2a', 'cmp_conv_a2r', 'cmp_conv_roundtrip', 'cmp_conv_must_fail',
             'cmp_keygen_range', 'cmp_pubkey']
